@@ -15,7 +15,7 @@ VARIABLES v_lvl, v_idx
 
 Go(id) == [t |-> "go", id |-> id]
 Operands == <<
-  Null, Bool(TRUE), Bool(FALSE), IntV(0), IntV(1), IntV(0 - 1), IntV(3), Num(96), IntV(1000), IntV(0 - 1000), Num(6400001),
+  Null, Bool(TRUE), Bool(FALSE), IntV(0), IntV(1), IntV(0 - 1), IntV(3), Num(96), Num(32), Num(0 - 16), Str(S2B("-0.9")), IntV(1000), IntV(0 - 1000), Num(6400001),
   Str(<<>>), Str(S2B("a")), Str(S2B("1.5")), Str(<<195, 169>>), Str(S2B("abc def")),
   Arr(<<>>), Arr(<<IntV(1), IntV(2)>>), Arr(<<Null>>), Hash(<< <<S2B("k"), IntV(1)>> >>), Hash(<<>>),
   Go("slice:int:1,2"), Go("map:is:1=a"), Go("struct:person"), Go("ptr:struct:person"), Go("nilptr:person"), Go("nilptr:slice"),
